@@ -28,6 +28,8 @@ type Case struct {
 	Obj2   string `json:"obj2,omitempty"`
 	Scope2 string `json:"scope2,omitempty"`
 	Op2    *Op    `json:"op2,omitempty"`
+	// Keys, when set, replaces the sub-field keys read in every snapshot (keys that differ only in one punctuation character)
+	Keys []string `json:"keys,omitempty"`
 }
 
 var objects = []struct{ obj, scope string }{
@@ -36,6 +38,8 @@ var objects = []struct{ obj, scope string }{
 
 var names = []string{"Foo", "fOO", "Bar"}
 var keys = []string{"a", "b"}
+
+var defaultKeys = []string{"a", "b"}
 
 const notset = "\x00"
 
@@ -70,6 +74,10 @@ func separatorOps() []Op {
 	}
 	for _, val := range []string{"x,y", "x y", "x; y=z"} {
 		ops = append(ops, Op{Kind: "set", Name: "Foo", Value: `"` + val + `"`, Val: val})
+	}
+	// a line break as the first, the last and the only character: the value read back ends before it
+	for _, n := range []string{"Foo", "fOO"} {
+		ops = append(ops, Op{Kind: "set", Name: n, Value: `"%0Aabc"`, Val: ""}, Op{Kind: "set", Name: n, Value: `"abc%0A"`, Val: "abc"}, Op{Kind: "set", Name: n, Value: `"%0A"`, Val: ""}, Op{Kind: "set", Name: n, Value: `"%0Aabc%0Adef"`, Val: ""})
 	}
 	return ops
 }
@@ -360,6 +368,10 @@ func swapRead(r string) string {
 }
 
 func run(c Case) engine.Result {
+	keys = defaultKeys
+	if len(c.Keys) > 0 {
+		keys = c.Keys
+	}
 	if c.Op2 != nil {
 		return runCross(c)
 	}
@@ -462,6 +474,27 @@ func gen17(tier string, emit func(Case)) {
 				}
 			}
 		}
+		// keys that differ in one punctuation character only (a.b, a-b, a_b): every history of up to 3 set / unset operations on them
+		if oi == 0 || oi == 4 || tier == "thorough" {
+			pk := []string{"a.b", "a-b", "a_b"}
+			var kops []Op
+			for _, k := range pk {
+				kops = append(kops, Op{Kind: "setfield", Name: "Foo", Key: k, Value: `"1"`, Val: "1"}, Op{Kind: "setfield", Name: "fOO", Key: k, Value: `"2"`, Val: "2"}, Op{Kind: "unsetfield", Name: "Foo", Key: k})
+			}
+			var rec2 func(h []Op)
+			rec2 = func(h []Op) {
+				if len(h) > 0 {
+					emit(Case{Obj: ob.obj, Scope: ob.scope, Ops: append([]Op{}, h...), Keys: pk})
+				}
+				if len(h) == 3 {
+					return
+				}
+				for _, o := range kops {
+					rec2(append(h, o))
+				}
+			}
+			rec2(nil)
+		}
 		// cross-object histories: 0 or 1 operation on this object, then one operation on each other object; this object's reads must not move
 		for _, ob2 := range objects {
 			if ob2.obj == ob.obj {
@@ -504,6 +537,9 @@ func init() {
 			}
 			if c.Op2 != nil {
 				b.WriteString("||" + c.Obj2 + "|" + c.Op2.String())
+			}
+			if len(c.Keys) > 0 {
+				b.WriteString("||keys")
 			}
 			return b.String()
 		},
